@@ -6,6 +6,8 @@ package cert
 //      pool holding the signer at every second 0..TMax and compared with Accept; every P-256 signature must be low-S,
 //      also when the SignerLambda hands back a high-S signature.
 //   T: seeded random TBS certificates (dozens of networks and groups) against SignOK evaluated by TLC (trace).
+//   H: histories on long-lived TBS objects (the same object signed again under other CAs, after refusals, after edits):
+//      zz_verif_c04_hist_test.go, spec/CertIssue.tla.
 
 import (
 	"crypto/ecdsa"
@@ -241,6 +243,9 @@ func TestVerif_C04(t *testing.T) {
 		t.FailNow()
 	}
 	res.Traces = n
+
+	// H: histories of operations on long-lived TBS objects (spec/CertIssue.tla, zz_verif_c04_hist_test.go)
+	c04RunHistories(t, res)
 
 	// T: random TBS certificates; the logged outcome of Sign is validated by TLC against SignOK
 	if plan.Random > 0 {
